@@ -428,7 +428,7 @@ func (ex *Exec) specCall(sc *Scope, e *ast.CallExpr) Val {
 		v := arg(0)
 		want, _ := strconv.Unquote(e.Args[1].(*ast.BasicLit).Value)
 		if i, ok := v.(Iface); ok && i.Dyn != nil {
-			return Bool{smt.Bool(shortType(i.Dyn) == want)}
+			return Bool{smt.Bool(shortType(i.Dyn) == stripPkg(want))}
 		}
 		if i, ok := v.(Iface); ok {
 			return Bool{smt.And(smt.Neq(i.Ref, NilRef), smt.Eq(smt.App("dyn", i.Ref), ex.typeID(lookupType(sc.Pkg, want))))}
@@ -450,7 +450,7 @@ func (ex *Exec) specCall(sc *Scope, e *ast.CallExpr) Val {
 		v := arg(0)
 		if i, ok := v.(Iface); ok {
 			if i.Dyn != nil {
-				if shortType(i.Dyn) != want {
+				if shortType(i.Dyn) != stripPkg(want) {
 					// only meaningful under a typeIs guard that is false here: an arbitrary object
 					pt, ok := lookupType(sc.Pkg, want).(*types.Pointer)
 					if !ok {
@@ -508,6 +508,12 @@ func (ex *Exec) specCall(sc *Scope, e *ast.CallExpr) Val {
 			return Bool{smt.App(f, terms...)}
 		}
 		return Str{smt.App(f, terms...)}
+	case "allocated":
+		r, ok := ex.refOf(sc.St, arg(0))
+		if !ok {
+			specErr(e, "allocated: argument is not a reference")
+		}
+		return Bool{smt.Sel(ex.allocOf(sc.St), r)}
 	case "scanpos", "scanlines", "scanline":
 		r, ok := ex.refOf(sc.St, arg(0))
 		if !ok {
